@@ -124,6 +124,9 @@ func contract(c tcase, o obs) []finding {
 			if parentCancelledAt(k) {
 				want = "1"
 			}
+			if c.group != nil && c.group.RPC == "Pull" && k >= wantRet {
+				want = "1" // a Group's Pull runs Execute under a context of its own, cancelled when the subscription ends
+			}
 			if cs != "-" && cs != want {
 				bad("cancel", "One must not cancel the caller's context", fmt.Sprintf("point %d: %s", k, want), cs)
 				break
@@ -180,7 +183,9 @@ func contract(c tcase, o obs) []finding {
 			}
 			bad(cls, fmt.Sprintf("%d of %d members failed, %d failures allowed", total, n, allowed), "err="+wantErr, "err="+o.Err)
 		}
-		if len(o.Res) != n {
+		if c.group != nil {
+			// a Group RPC: the slice is reduced by the adapter (judged in gadapters.go)
+		} else if len(o.Res) != n {
 			bad("results-length", "results slice has the wrong length", strconv.Itoa(n), strconv.Itoa(len(o.Res)))
 		} else {
 			for i := 0; i < n; i++ {
@@ -224,6 +229,9 @@ func checkSingle(c tcase, o obs, bad func(class, what, exp, got string), wantMsg
 			cls = "error-presence"
 		}
 		bad(cls, "wrong error returned", "err="+wantErr, "err="+o.Err)
+	}
+	if c.group != nil {
+		return // a Group RPC: the single result is reduced by the adapter (judged in gadapters.go)
 	}
 	if !o.Slice {
 		if o.Msg != wantMsg {
